@@ -23,14 +23,22 @@ def conditions(tier):
     T = 120 if tier == 'quick' else 600
     conds = []
     for m in range(len(H.META)):
-        conds.append(ch.Cond('h_c03', 'metadata', [('block', 'int')], pre=['0 <= block < %d' % H.N_BLOCKS],
-                             fixed=dict(meta=m), timeout=T, name='metadata[%s]' % H.META[m],
-                             bounds='a block carrying %s under each of %d names: both elements of every kind (function, '
-                                    'record, enumeration, member, callback, alias, constant, class, class struct, '
-                                    'Class:property, Class::signal, Struct.field, ClassStruct::vfunc, method) and 10 near '
-                                    'misses (Class::prop, Class:signal, ClassStruct:vfunc, Class::vfunc, Struct:field, '
-                                    'Struct::field, field of the other struct, missing symbol, namespace name, '
-                                    'Class.prop)' % (H.META[m], H.N_BLOCKS)))
+        for tp in (False, True):
+            conds.append(ch.Cond('h_c03', 'metadata', [('block', 'int'), ('meta2', 'int')],
+                                 pre=['0 <= block < %d' % H.N_BLOCKS, '-1 <= meta2 < %d' % len(H.META)],
+                                 fixed=dict(meta=m, two_prefixes=tp), timeout=T,
+                                 name='metadata[%s%s]' % (H.META[m], ', GType name differs from C name' if tp else ''),
+                                 bounds='a block carrying %s, alone or together with a second piece of metadata, under each '
+                                        'of %d names: both elements of every kind (function, record, enumeration, member, '
+                                        'callback, alias, constant, class, class struct, Class:property, Class::signal, '
+                                        'Struct.field, ClassStruct::vfunc, method) and 10 near misses%s'
+                                        % (H.META[m], H.N_BLOCKS, '; namespace with identifier prefixes Foo and Fu, class '
+                                           'registered as FuObj with C type FooObj' if tp else '')))
+    conds.append(ch.Cond('h_c03', 'rename_chains', [('r1', 'int'), ('r2', 'int'), ('r3', 'int'), ('order', 'int')],
+                         pre=['0 <= r1 <= 4', '0 <= r2 <= 4', '0 <= r3 <= 4', '0 <= order <= 5'], timeout=T,
+                         name='rename-to chains',
+                         bounds='three functions, each with (rename-to) naming any of them or a missing symbol, declared '
+                                'in any order: shadows/shadowed-by form mutually consistent pairs backed by an annotation'))
     conds.append(ch.Cond('h_c03', 'roles', [('case', 'int'), ('misplaced', 'bool')], pre=['0 <= case < %d' % H.N_ROLES],
                          timeout=T, name='roles',
                          bounds='constructor, method, value, rename-to, set-/get-property, finish/sync/async-func, emitter, '
